@@ -194,6 +194,14 @@ def strip(line):
 def call(impl, line):
     """impl(line) — inside `warm_constructors()` when the line carries the marker"""
     if line.endswith(MARK):
-        with warm_constructors():
-            return impl(line[:-len(MARK)])
+        # the harness's own memo tables would hand the line an object that was built BEFORE (outside this context, by
+        # the plain line just evaluated): they are emptied so that every object of the line is constructed - and warmed -
+        # here, and emptied again so that no later plain line inherits a warmed object
+        from harness import decoy
+        decoy._clear_harness_caches()
+        try:
+            with warm_constructors():
+                return impl(line[:-len(MARK)])
+        finally:
+            decoy._clear_harness_caches()
     return impl(line)
